@@ -119,10 +119,83 @@ def run(ch: Checker) -> None:
     load_calls = [c for c in walk_no_nested(init.node) if isinstance(c, ast.Call) and attr_chain(c.func) == 'Plugins.load']
     if not load_calls:
         ch.bad('C08.2', init, 'Plugins.load', 'FlagParser.initialize no longer calls Plugins.load')
+    # locals with a single definition in the function are read through (named temporaries)
+    defs: Dict[str, List[ast.AST]] = {}
+    for st in walk_no_nested(init.node):
+        if isinstance(st, ast.Assign) and len(st.targets) == 1 and isinstance(st.targets[0], ast.Name):
+            defs.setdefault(st.targets[0].id, []).append(st.value)
+        elif isinstance(st, ast.AnnAssign) and isinstance(st.target, ast.Name) and st.value is not None:
+            defs.setdefault(st.target.id, []).append(st.value)
+        elif isinstance(st, ast.AugAssign) and isinstance(st.target, ast.Name):
+            defs.setdefault(st.target.id, []).extend([st.value, st.value])
+
+    def through(e: ast.AST, depth: int = 4) -> ast.AST:
+        while isinstance(e, ast.Name) and len(defs.get(e.id, [])) == 1 and depth > 0:
+            e = defs[e.id][0]
+            depth -= 1
+        return e
+
+    def tri(e: ast.AST, env: Dict[str, bool]) -> Optional[bool]:
+        """three-valued evaluation of a condition under an assignment of some names"""
+        while isinstance(e, ast.Name) and e.id not in env and len(defs.get(e.id, [])) == 1:
+            e = defs[e.id][0]
+        if isinstance(e, ast.Name):
+            return env.get(e.id)
+        if isinstance(e, ast.Constant):
+            return bool(e.value)
+        if isinstance(e, ast.UnaryOp) and isinstance(e.op, ast.Not):
+            v = tri(e.operand, env)
+            return None if v is None else not v
+        if isinstance(e, ast.Call) and attr_chain(e.func) == 'bool' and len(e.args) == 1:
+            return tri(e.args[0], env)
+        if isinstance(e, ast.BoolOp):
+            vals = [tri(v, env) for v in e.values]
+            if isinstance(e.op, ast.Or):
+                return True if any(v is True for v in vals) else (False if all(v is False for v in vals) else None)
+            return False if any(v is False for v in vals) else (True if all(v is True for v in vals) else None)
+        return None
+
+    def guards_of(node: ast.AST) -> List[Tuple[ast.AST, bool]]:
+        """(test, polarity) of the if-statements of the function that enclose node"""
+        out: List[Tuple[ast.AST, bool]] = []
+
+        def rec(body: List[ast.stmt], acc: List[Tuple[ast.AST, bool]]) -> bool:
+            for s_ in body:
+                if s_ is node or any(x is node for x in walk_no_nested(s_) if not isinstance(s_, (ast.If, ast.For, ast.While, ast.With, ast.Try))):
+                    out.extend(acc)
+                    return True
+                if isinstance(s_, ast.If):
+                    if any(x is node for x in ast.walk(s_.test)):
+                        out.extend(acc)
+                        return True
+                    if rec(s_.body, acc + [(s_.test, True)]) or rec(s_.orelse, acc + [(s_.test, False)]):
+                        return True
+                elif isinstance(s_, (ast.For, ast.While, ast.With)):
+                    if rec(s_.body, acc) or rec(getattr(s_, 'orelse', []) or [], acc):
+                        return True
+                elif isinstance(s_, ast.Try):
+                    if rec(s_.body, acc) or any(rec(h.body, acc) for h in s_.handlers) or rec(s_.orelse, acc) or rec(s_.finalbody, acc):
+                        return True
+            return False
+        rec(init.node.body, [])   # type: ignore[attr-defined]
+        return out
+
+    def holds_under_basic_auth(node: ast.AST) -> Optional[bool]:
+        res: Optional[bool] = True
+        for t, pol in guards_of(node):
+            v = tri(t, {'basic_auth': True})
+            if v is None:
+                res = None if res is not False else res
+            elif v != pol:
+                return False
+        return res
+
     for c in load_calls:
         parts: List[str] = []
 
         def flat(e: ast.AST) -> None:
+            if not (isinstance(e, ast.Name) and e.id in ('auth_plugins', 'requested_plugins', 'default_plugins')):
+                e = through(e)
             if isinstance(e, ast.BinOp) and isinstance(e.op, ast.Add):
                 flat(e.left)
                 flat(e.right)
@@ -131,29 +204,31 @@ def run(ch: Checker) -> None:
         if c.args:
             flat(c.args[0])
         if 'auth_plugins' in parts and 'requested_plugins' in parts:
-            ch.check(parts.index('auth_plugins') < parts.index('requested_plugins'), 'C08.2', init, c,
-                     'load order: %s' % ' + '.join(parts), 'user plugins are loaded before the auth plugin (%s): their hooks run on unauthenticated requests' % ' + '.join(parts))
+            ch.check(parts.index('auth_plugins') < parts.index('requested_plugins'), 'C08.2', init, 'Plugins.load(...) order',
+                     'load order: %s' % ' + '.join(parts), 'user plugins are loaded before the auth plugin (%s): their hooks run on unauthenticated requests' % ' + '.join(parts), line=c.lineno)
         else:
-            ch.bad('C08.2', init, c, 'the plugin list handed to Plugins.load is not a concatenation containing auth_plugins and requested_plugins: %s' % parts)
-    # auth plugin appended under basic_auth (or a non-default auth plugin)
-    gi = cfg_of(init, prog, exc_edges=False)
-    appended_when_basic = None
-    code_ok = None
+            ch.bad('C08.2', init, 'Plugins.load(...) order', 'the plugin list handed to Plugins.load is not a concatenation containing auth_plugins and requested_plugins: %s' % parts, line=c.lineno)
+    # the auth plugin enters auth_plugins whenever basic_auth is set (or a non-default auth plugin was chosen)
+    include_sites: List[ast.AST] = []
     for st in walk_no_nested(init.node):
-        if isinstance(st, ast.If):
-            cond = norm(st.test)
-            for c in walk_no_nested(ast.Module(body=st.body, type_ignores=[])):
-                if isinstance(c, ast.Call) and attr_chain(c.func) == 'auth_plugins.append':
-                    appended_when_basic = cond
-            for s2 in st.body:
-                if isinstance(s2, ast.Assign) and any(isinstance(t, ast.Name) and t.id == 'auth_code' for t in s2.targets):
-                    code_ok = (cond, norm(s2.value))
-    okc = appended_when_basic is not None and (appended_when_basic == 'basic_auth' or appended_when_basic.startswith('basic_auth or '))
-    ch.check(bool(okc), 'C08.2', init, 'auth_plugins.append', 'auth plugin loaded under `%s`' % appended_when_basic,
-             'the auth plugin is not loaded whenever basic_auth is set (condition: %s)' % appended_when_basic)
-    okk = code_ok is not None and code_ok[0] == 'basic_auth' and code_ok[1] == 'base64.b64encode(bytes_(basic_auth))'
-    ch.check(bool(okk), 'C08.2', init, 'auth_code', 'auth_code = base64.b64encode(bytes_(basic_auth)) under basic_auth',
-             'auth_code is not the base64 of the configured credentials under basic_auth: %s' % (code_ok,))
+        if isinstance(st, ast.Call) and attr_chain(st.func) in ('auth_plugins.append', 'auth_plugins.insert', 'auth_plugins.extend') and 'auth_plugin' in norm(st):
+            include_sites.append(st)
+        if isinstance(st, (ast.Assign, ast.AnnAssign)):
+            tg = st.targets[0] if isinstance(st, ast.Assign) else st.target
+            if isinstance(tg, ast.Name) and tg.id == 'auth_plugins' and st.value is not None and isinstance(st.value, (ast.List, ast.Tuple)) and any(norm(x) == 'auth_plugin' for x in st.value.elts):
+                include_sites.append(st)
+    inc = [holds_under_basic_auth(x) for x in include_sites]
+    okc = bool(include_sites) and any(v is True for v in inc)
+    ch.check(okc, 'C08.2', init, 'auth plugin included', 'the auth plugin is put into auth_plugins on a branch that is taken whenever basic_auth is set',
+             'no statement puts the auth plugin into auth_plugins under a condition that holds whenever basic_auth is set (%d candidate site(s), verdicts %s): '
+             'with --basic-auth configured nothing checks credentials' % (len(include_sites), inc))
+    # auth_code = base64 of the configured credentials whenever basic_auth is set
+    code_sites = [(st, (st.value)) for st in walk_no_nested(init.node) if isinstance(st, (ast.Assign, ast.AnnAssign))
+                  and isinstance((st.targets[0] if isinstance(st, ast.Assign) else st.target), ast.Name)
+                  and (st.targets[0] if isinstance(st, ast.Assign) else st.target).id == 'auth_code' and st.value is not None and norm(st.value) != 'None']   # type: ignore[union-attr]
+    okk = bool(code_sites) and all(norm(v) == 'base64.b64encode(bytes_(basic_auth))' for st, v in code_sites) and any(holds_under_basic_auth(st) is True for st, v in code_sites)
+    ch.check(bool(okk), 'C08.2', init, 'auth_code', 'auth_code = base64.b64encode(bytes_(basic_auth)) whenever basic_auth is set',
+             'auth_code is not the base64 of the configured credentials whenever basic_auth is set: %s' % [(norm(v)[:60], holds_under_basic_auth(st)) for st, v in code_sites])
 
     # ---------------- C08.3
     orc = prog.own_method('HttpProxyPlugin', 'on_request_complete')
